@@ -779,6 +779,29 @@ func streamC09(r *Rand, n int, o *Out) {
 					}
 				}
 				h.ParsePkg(in)
+				// the same spelling through the host setters, on a parsed URL and on a clone of it: the pipeline is the same one
+				if vi == 0 || rr.P(35) {
+					start := scheme + "://start.example/p?q#f"
+					if k0 := h.ParsePkg(start); k0 >= 0 {
+						kc := h.Clone(k0)
+						for _, kk := range []int{k0, kc} {
+							if kk < 0 {
+								continue
+							}
+							st := 3 + rr.N(2) // host / hostname setter
+							h.Set(kk, st, v)
+							orc.Eval("C09")
+							got := "ok:" + h.urls[kk].Hostname()
+							want := res[scheme]
+							if want == "ERR" || (scheme == "file" && want == "ok:") {
+								want = "" // a rejected value leaves the host alone; the empty host of file://localhost is set as such
+							}
+							if want != "" && got != want {
+								orc.Fail("C09", "setter-spelling-dependent", fmt.Sprintf("%s parses to %s but the host setter on %s gives %s", q(in), q(want), map[bool]string{true: "a clone", false: "a parsed url"}[kk == kc], q(got)), strings.Join(h.ops, " ; "))
+							}
+						}
+					}
+				}
 			}
 		}
 		o.EmitHist("d", h)
